@@ -157,8 +157,16 @@ func Start(opt Options) (*Sim, error) {
 		return nil, err
 	}
 	if err := s.StartCore(); err != nil {
+		tail := ""
+		if b, rerr := os.ReadFile(s.StderrPath()); rerr == nil {
+			if len(b) > 3000 {
+				b = b[len(b)-3000:]
+			}
+			tail = string(b)
+		}
+		dump := s.DumpGoroutines()
 		s.Close()
-		return nil, err
+		return nil, fmt.Errorf("%w; core stderr tail: %s; goroutines: %s", err, tail, dump)
 	}
 	return s, nil
 }
@@ -201,6 +209,9 @@ func (s *Sim) StartCore() error {
 		"O2_ROLE=verif",
 	)
 	cmd.Env = append(cmd.Env, s.Opt.Env...)
+	if p := os.Getenv("VERIF_CORE_POINTS"); p != "" && !hasEnv(cmd.Env, "VERIF_POINTS") {
+		cmd.Env = append(cmd.Env, "VERIF_POINTS="+p)
+	}
 	if !hasEnv(cmd.Env, "GORACE") {
 		cmd.Env = append(cmd.Env, "GORACE=halt_on_error=0 log_path="+filepath.Join(s.Dir, "race"))
 	}
@@ -232,7 +243,7 @@ func (s *Sim) StartCore() error {
 		close(done)
 	}()
 	// wait for gRPC
-	deadline := time.Now().Add(60 * time.Second)
+	deadline := time.Now().Add(240 * time.Second) // generous: a loaded machine is not a verdict
 	var conn *grpc.ClientConn
 	for time.Now().Before(deadline) {
 		select {
@@ -303,6 +314,45 @@ func (s *Sim) KillCore() {
 	s.mu.Unlock()
 }
 
+// DumpGoroutines sends SIGQUIT to the core (which then exits with a goroutine
+// dump on stderr) and returns the /repo frames of blocked goroutines, condensed.
+func (s *Sim) DumpGoroutines() string {
+	s.mu.Lock()
+	cmd := s.cmd
+	done := s.coreDone
+	s.mu.Unlock()
+	if cmd == nil || cmd.Process == nil {
+		return ""
+	}
+	before, _ := os.ReadFile(s.StderrPath())
+	syscall.Kill(cmd.Process.Pid, syscall.SIGQUIT)
+	select {
+	case <-done:
+	case <-time.After(20 * time.Second):
+	}
+	after, _ := os.ReadFile(s.StderrPath())
+	dump := string(after[len(before):])
+	var out []string
+	for _, blk := range strings.Split(dump, "\n\n") {
+		if !strings.HasPrefix(blk, "goroutine ") || !strings.Contains(blk, "/repo/core/") {
+			continue
+		}
+		lines := strings.Split(blk, "\n")
+		var keep []string
+		keep = append(keep, lines[0])
+		for i := 1; i+1 < len(lines); i += 2 {
+			if strings.Contains(lines[i+1], "/repo/") {
+				keep = append(keep, "  "+strings.TrimSpace(lines[i])+" @ "+strings.TrimSpace(strings.SplitN(strings.TrimSpace(lines[i+1]), " ", 2)[0]))
+			}
+		}
+		out = append(out, strings.Join(keep, "\n"))
+	}
+	return strings.Join(out, "\n")
+}
+
+// dumpMarker distinguishes a requested SIGQUIT dump from a crash.
+const dumpMarker = "SIGQUIT: quit"
+
 // CoreCrash returns the crash headline found in the core's stderr, if any.
 func (s *Sim) CoreCrash() string {
 	b, err := os.ReadFile(s.StderrPath())
@@ -310,6 +360,9 @@ func (s *Sim) CoreCrash() string {
 		return ""
 	}
 	txt := string(b)
+	if i := strings.Index(txt, dumpMarker); i >= 0 {
+		txt = txt[:i] // a goroutine dump we asked for is not a crash
+	}
 	for _, key := range []string{"\npanic: ", "\nfatal error: "} {
 		if i := strings.Index(txt, key); i >= 0 {
 			end := i + 1 + 4000
